@@ -1,11 +1,8 @@
 (* Proofs about Model/IntBytes.v: integer <-> bytes, binary strings, hex. *)
 From Coq Require Import NArith ZArith Arith List Lia Bool.
-From BU Require Import Base.Exn Base.Radix Base.Bytes Model.IntBytes.
+From BU Require Import Base.Exn Base.Radix Base.Bytes Model.IntBytes Lemmas.CodecsAux.
 Import ListNotations.
 Open Scope N_scope.
-
-Lemma map_repeat_N (f : N -> N) x k : map f (repeat x k) = repeat (f x) k.
-Proof. induction k; simpl; congruence. Qed.
 
 (* ================================================================== hex *)
 
@@ -351,15 +348,6 @@ Qed.
 
 Lemma nibs_length b : length (nibs b) = (2 * length b)%nat.
 Proof. induction b; simpl; [reflexivity|]. fold (nibs b). lia. Qed.
-
-Lemma from_le_inj_len r : 2 <= r -> forall a b, digits_ok r a -> digits_ok r b -> length a = length b ->
-  from_le r a = from_le r b -> a = b.
-Proof.
-  intros Hr. induction a as [|x a IH]; intros [|y b] Ha Hb Hl E; try discriminate; [reflexivity|].
-  inversion Ha; subst. inversion Hb; subst. cbn [from_le] in E.
-  destruct (N.div_mod_unique r (from_le r a) (from_le r b) x y) as [E1 E2]; [assumption|assumption|lia|].
-  subst y. f_equal. apply IH; auto.
-Qed.
 
 Definition hex_ds (v : N) : list N := if v =? 0 then [0] else to_be 16 v.
 
